@@ -21,6 +21,8 @@ import (
 
 type ljh22File struct {
 	header map[string]string
+	// ranges: for keys written as "Row number (from 0-31 inclusive): 12" the text between "(from " and ")"
+	ranges map[string]string
 	hdrLen int
 	recs   []ljh22Rec
 	trail  int // bytes after the last whole record
@@ -46,7 +48,7 @@ func decodeLJH22(b []byte) (*ljh22File, error) {
 	if j < len(b) && b[j] == '\n' {
 		j++
 	}
-	f := &ljh22File{header: map[string]string{}, hdrLen: j}
+	f := &ljh22File{header: map[string]string{}, ranges: map[string]string{}, hdrLen: j}
 	if !bytes.HasPrefix(b, []byte("#LJH Memorial File Format")) {
 		return nil, fmt.Errorf("file does not start with '#LJH Memorial File Format'")
 	}
@@ -62,6 +64,7 @@ func decodeLJH22(b []byte) (*ljh22File, error) {
 		key := line[:k]
 		// keys like "Row number (from 0-31 inclusive)" are normalised
 		if p := strings.Index(key, " (from"); p >= 0 {
+			f.ranges[key[:p]] = strings.TrimSuffix(strings.TrimPrefix(key[p:], " (from "), ")")
 			key = key[:p]
 		}
 		if _, dup := f.header[key]; dup {
